@@ -136,8 +136,16 @@ def hook(check, failed, mism):
         seen_keys.add(key)
         found.append((key, text, body))
 
-    tables = facts.get("tables", {})
-    rows = facts.get("archRows", [])
+    tables = facts.get("tables") or {}
+    rows = facts.get("archRows") or []
+    if len(rows) < 5 or len(tables) < 5:
+        # The translator reads the `Info` rows and the tables as composite literals.  If the source declares
+        # them differently (through constructor functions, say), nothing below can be said from the facts:
+        # that is a broken tie, not a failing input — the compiled package is still compared by the stream.
+        check.violation("c12:translator-rows", "the translator found %d Info rows and %d tables in arch/ (expected 16 and 5): "
+                        "the declarations are not in the literal form it reads" % (len(rows), len(tables)), False,
+                        "broken: translator vextract (arch rows / tables)\nbroken theorems: C12.rows_tables and everything stated over Gen.archRows\n")
+        return
     row_by_var = {r["var"]: r for r in rows}
     arch_of_table = {r["table"]: r for r in rows if r.get("table")}
     oracle = facts.get("oracle", {})
